@@ -530,10 +530,10 @@ pub fn meta_strategy() -> impl Strategy<Value = (Meta, MetaExpect)> {
             let mut exp = MetaExpect::default();
             let mdir = handler == cc("mdir");
             if let Some(t) = &title {
-                items.push(MetaItem { typ: [0xa9, b'n', b'a', b'm'], type_code: 1, payload: t.clone(), pre: pre.clone(), post: vec![] });
+                items.push(MetaItem { typ: [0xa9, b'n', b'a', b'm'], type_code: 1, payload: t.clone(), pre: pre.clone(), post: vec![], locale: 0 });
             }
             if let Some(s) = &summary {
-                items.push(MetaItem { typ: cc("desc"), type_code: 1, payload: s.clone(), pre: vec![], post: post.clone() });
+                items.push(MetaItem { typ: cc("desc"), type_code: 1, payload: s.clone(), pre: vec![], post: post.clone(), locale: 0 });
             }
             if let Some(y) = &year {
                 let (code, payload, val) = match y {
@@ -543,11 +543,11 @@ pub fn meta_strategy() -> impl Strategy<Value = (Meta, MetaExpect)> {
                     YearEnc::BinaryOdd(b) => (0u32, b.clone(), None),
                     YearEnc::TextJunk(s) => (1u32, s.clone().into_bytes(), None),
                 };
-                items.push(MetaItem { typ: [0xa9, b'd', b'a', b'y'], type_code: code, payload, pre: vec![], post: vec![] });
+                items.push(MetaItem { typ: [0xa9, b'd', b'a', b'y'], type_code: code, payload, pre: vec![], post: vec![], locale: 0 });
                 exp.year = val;
             }
             if let Some(p) = &poster {
-                items.push(MetaItem { typ: cc("covr"), type_code: 13, payload: p.clone(), pre: vec![], post: vec![] });
+                items.push(MetaItem { typ: cc("covr"), type_code: 13, payload: p.clone(), pre: vec![], post: vec![], locale: 0 });
             }
             exp.title = title;
             exp.summary = summary;
@@ -559,7 +559,20 @@ pub fn meta_strategy() -> impl Strategy<Value = (Meta, MetaExpect)> {
                     0 | 1 | 13 | 21 => code,
                     _ => 1,
                 };
-                items.push(MetaItem { typ: t, type_code: code, payload: p, pre: vec![], post: vec![] });
+                items.push(MetaItem { typ: t, type_code: code, payload: p, pre: vec![], post: vec![], locale: 0 });
+            }
+            // locale indicators: mostly 0, sometimes a country/language pair, per item
+            if order_seed % 3 == 0 {
+                let mut y = order_seed;
+                for it in items.iter_mut() {
+                    y = crate::engine::splitmix(y);
+                    it.locale = match y % 4 {
+                        0 => 0,
+                        1 => 0x0000_0409,
+                        2 => (y >> 8) as u32 & 0xffff,
+                        _ => (y >> 8) as u32,
+                    };
+                }
             }
             // deterministic shuffle of item order
             let mut x = order_seed;
